@@ -51,6 +51,7 @@ inductive Write where
   | putObj (o : Obj) (p : Payload)
   | putMeta (m : Meta)
   | delObj (o : Obj)
+  deriving DecidableEq
 
 def getObj : List (Obj × Payload) → Obj → Option Payload
   | [], _ => none
